@@ -29,6 +29,11 @@ pub struct NetHistory {
     /// update hook: the optimizer state must survive from one `learn` call to the next
     #[serde(default)]
     pub learn_steps: Vec<usize>,
+    /// indices of steps before which the *same* optimizer (kind and hyper-parameters) is
+    /// attached again with `set_optimizer`: attaching starts from fresh (zero) state,
+    /// however similar the new optimizer is to the old one
+    #[serde(default)]
+    pub reattach: Vec<usize>,
 }
 
 pub fn generate(rng: &mut Rng, opt: &OptCfg) -> NetHistory {
@@ -66,7 +71,15 @@ pub fn generate(rng: &mut Rng, opt: &OptCfg) -> NetHistory {
             }
         }
     }
-    NetHistory { net, clock, data, steps, learn_steps }
+    let mut reattach = Vec::new();
+    if rng.chance(0.15) {
+        for t in 1..steps.len() {
+            if rng.chance(0.3) {
+                reattach.push(t);
+            }
+        }
+    }
+    NetHistory { net, clock, data, steps, learn_steps, reattach }
 }
 
 /// One parameter tensor's gradient for a step, in the parameter's own row-major order.
@@ -128,6 +141,12 @@ fn execute(h: &NetHistory) -> Recorded {
     let mut rec = Recorded { params: vec![parameters(&net)], grads: Vec::new() };
     let layers = h.net.layers.len();
     for (t, (stepnr, group)) in h.steps.iter().enumerate() {
+        if h.reattach.contains(&t) {
+            if let Some(opt) = &h.net.optimizer {
+                set_phase("build:optimizer");
+                net.set_optimizer(opt.to_lib());
+            }
+        }
         let mut sum_w: Vec<tensor::Tensor> = Vec::new();
         let mut sum_b: Vec<Option<tensor::Tensor>> = Vec::new();
         set_phase("gradients");
@@ -189,6 +208,7 @@ pub fn check(opt: &OptCfg, h: &NetHistory, stats: &mut Stats) -> Outcome {
         h.net.layers.iter().any(|l| matches!(l, LayerCfg::Conv { filters, .. } | LayerCfg::Deconv { filters, .. } if *filters >= 2)),
     );
     stats.probe("network_level_step_via_learn", h.steps.iter().enumerate().any(|(t, (nr, _))| *nr == 1 && t >= 1 && h.learn_steps.contains(&t)));
+    stats.probe("network_level_optimizer_reattached", !h.reattach.is_empty() && !matches!(opt, OptCfg::SGD { .. }));
     stats.probe("network_level_feedback", h.net.layers.iter().any(|l| matches!(l, LayerCfg::Feedback { loops, .. } if *loops >= 2)));
     let env = Env::reference(h.clock);
     let (rec, info) = run_env(&env, |_| execute(h));
@@ -272,6 +292,14 @@ pub fn check(opt: &OptCfg, h: &NetHistory, stats: &mut Stats) -> Outcome {
             let mut st64: Vec<RefState<f64>> = copies.iter().map(|_| RefState { w: 0.0, a: 0.0, b: 0.0, c: 0.0 }).collect();
             let mut st32: Vec<RefState<f32>> = copies.iter().map(|_| RefState { w: 0.0, a: 0.0, b: 0.0, c: 0.0 }).collect();
             for (t, (stepnr, _)) in h.steps.iter().enumerate() {
+                if h.reattach.contains(&t) {
+                    for st in st64.iter_mut() {
+                        *st = RefState { w: 0.0, a: 0.0, b: 0.0, c: 0.0 };
+                    }
+                    for st in st32.iter_mut() {
+                        *st = RefState { w: 0.0, a: 0.0, b: 0.0, c: 0.0 };
+                    }
+                }
                 let before = rec.params[t][copies[0]][e];
                 let mut after64 = Vec::new();
                 let mut after32 = Vec::new();
@@ -356,6 +384,17 @@ pub fn shrink(h: &NetHistory) -> Vec<NetHistory> {
             let mut n = h.clone();
             n.steps.truncate(keep);
             n.learn_steps.retain(|t| *t < keep);
+            n.reattach.retain(|t| *t < keep);
+            out.push(n);
+        }
+    }
+    if !h.reattach.is_empty() {
+        let mut n = h.clone();
+        n.reattach.clear();
+        out.push(n);
+        for i in 0..h.reattach.len() {
+            let mut n = h.clone();
+            n.reattach.remove(i);
             out.push(n);
         }
     }
